@@ -264,3 +264,23 @@ def build_evaluator(spec: dict):  # noqa: F811 - dispatch on stub specifications
     if spec.get("stub") is not None:
         return StubEvaluator(spec["stub"], save_group_times=bool(spec.get("save_group_times")))
     return _build_real(spec)
+
+
+def spec_variant(spec: dict, variant):
+    """The same configuration declared differently (e.g. class groups in another order)."""
+    if not variant:
+        return spec
+    import copy
+
+    sp = copy.deepcopy(spec)
+    order = variant.get("group_order")
+    if order:
+        if sp.get("stub") is not None:
+            g = sp["stub"]["groups"]
+            if sorted(order) == list(range(len(g))):
+                sp["stub"]["groups"] = [g[i] for i in order]
+        elif sp.get("groups"):
+            g = sp["groups"]
+            if sorted(order) == list(range(len(g))):
+                sp["groups"] = [g[i] for i in order]
+    return sp
